@@ -11,7 +11,7 @@ EXPLANATION = ('Panic-site inventory over every body reachable from the engine e
                'agreement, or by a reviewed invariant whose maintenance obligations are rules of this framework; containers asserted '
                'empty at CONNACK may not receive insertions in PendingConnack (typestate); every Err exit of the two engine wrappers '
                'halts the engine and Halted is absorbing until connection-closed; packet dispatch is total; explicit protocol-error '
-               'exits of packet handlers precede any mutation; time arithmetic on user-configured durations is checked. Added in round 2: an error is scoped to its connection - opening a connection unconditionally resets every decoder field (must-effects summary), also out of the latched error state.')
+               'exits of packet handlers precede any mutation; time arithmetic on user-configured durations is checked. Added in round 2: an error is scoped to its connection - opening a connection unconditionally resets every decoder field (must-effects summary), also out of the latched error state. Added in round 3: the current-operation lookup cannot panic (defect 17). Added after the mutation sweeps: every inbound validator rejects under exactly the reviewed conditions (table).')
 ASSUMPTIONS = ['not decided: that no driver-producible event order reaches a site protected only by a listed invariant (the invariants are '
                'argued structurally by their maintenance rules, not proved over histories); "a conforming server is never reported as violating"',
                'integer overflow asserts on length sums are profile dependent and excluded from the inventory']
